@@ -232,6 +232,36 @@ func execC20(c Case) string {
 			return "false-negatives:" + itoa(tot)
 		}
 		return "ok"
+	case "scanconc": // scanconc <ntx> <iters> <seed>: the block scan only uses the filter through its documented-safe
+		// operations, so it may run while other goroutines insert into the same filter (race freedom; the race detector decides)
+		ntx, iters, seed := atoi(a[0]), atoi(a[1]), atou(a[2])
+		blk := bchutil.NewBlock(synthBlock(ntx, uint32(seed), false))
+		f := bloom.LoadFilter(wire.NewMsgFilterLoad(make([]byte, 512), 3, uint32(seed), wire.BloomUpdateAll))
+		f.Add([]byte{0x6a, 0})
+		var wg sync.WaitGroup
+		stop := make(chan struct{})
+		wg.Add(1)
+		go func() {
+			defer wg.Done()
+			for j := 0; ; j++ {
+				select {
+				case <-stop:
+					return
+				default:
+					f.Add(c20Item(seed, 5, j))
+					f.Matches(c20Item(seed, 5, j))
+				}
+			}
+		}()
+		n := 0
+		for i := 0; i < iters; i++ {
+			n += len(bloom.GetMatchedIndices(blk, f))
+			m, _ := bloom.NewMerkleBlock(blk, f)
+			n += len(m.Hashes)
+		}
+		close(stop)
+		wg.Wait()
+		return "done"
 	case "gcsimm": // gcsimm <n> <seed>: a built / rebuilt GCS filter shares no memory with what it was made from or hands out
 		n, seed := atoi(a[0]), atou(a[1])
 		var key [gcs.KeySize]byte
@@ -342,6 +372,7 @@ func genC20(r *Rng, tier string, emit func(Case)) {
 	}
 	e("reloadsame", "reload-current-message", "4", "20", u64s(r.U64()&0xffff))
 	e("concquery", "concurrent-queries", "8", "200", u64s(r.U64()&0xffff))
+	e("scanconc", "scan-vs-insert", "12", "40", u64s(r.U64()&0xffff))
 	e("gcsimm", "immutable", itoa(r.Pick(1, 50, 300)), u64s(r.U64()&0xffff))
 	e("gcsconc", "queries", "200", "16", u64s(r.U64()&0xffff))
 	ra := 2
